@@ -358,9 +358,19 @@ def build_names(case):
     extra = [tuple(x) for x in case['order']] if 'order' in case else \
         [(nm, 'DFF') for nm in case['dff']] + [(nm, 'LATCH') for nm in case['latch']]
     # interleave a gate so that node order != s_nodes order
+    history = (sum(map(ord, case['prefix'])) + len(extra)) % 5 < 2
+    made = []
     for k, (nm, kind) in enumerate(extra):
         if k % 2: Node(c, f'__g{k}', 'AND2')
-        Node(c, nm, kind)
+        # with a history: the state elements start as library cells of another kind and get their kind IN PLACE later, as
+        # `substitute()` / `resolve_tlib_cells()` do (`node.kind = designated_cell.kind`)
+        made.append((Node(c, nm, 'CELLX1' if history else kind), kind))
+    if history:
+        for q in (case['prefix'], ''):      # lookups before the edit (anything they remember must not survive it)
+            try: c.s_locs(q); c.io_locs(q)
+            except Exception: pass
+        _ = c.s_nodes
+        for n, kind in made: n.kind = kind
     return c
 
 
